@@ -1,10 +1,12 @@
 import LenaModel.DriverUtil
 import LenaModel.Model.C14
 import LenaModel.Model.C14Tok
+import LenaModel.Model.C14X
 /-! Model driver for C14.
 
-Values `V`: a number is an opaque scalar, a string a string, `{"l":[..]}` a list, `{"t":[..]}` a tuple, an
-array a dictionary = its slots over the request's key alphabet `names` (`null` = key absent).
+Values `V`: a number is an opaque scalar, a string a string, `{"l":[..]}` a list, `{"t":[..]}` a tuple; a dictionary
+over the request's key alphabet `names` is `{"D":[[i,v],..]}` (key number, value; only the keys present — the form of
+every reply) or, in requests, also the array of all its slots (`null` = key absent).
 Data (`Raw`): a number, an array (tuple) of data, or `{"ctx":D}` (a dictionary inside the data).  Getter fixtures:
 `{"tag":i}` is `x ↦ (i, x)`, `{"pairw":i,"k":slot,"n":n}` is `x ↦ (x, {"w": i})`, `"first"` is `x ↦ x[0]`; the strings
 `"variable"` / `"notcallable"` stand for a getter that is a `Variable` / not callable.
@@ -33,27 +35,48 @@ Request:
     `var_context[vkey]` of variable `i`
     -> {"next":n,"vcs":[TVdict..],"calls":[..],"calls1":[..]|null,"r":[{"c":TVdict,"w":[tokens written],"next":n,"sep":bool,"spine":[..],"erased":D} | {"e":..,"sep":bool} ..],"calls":[..]}
     TV: number | string | {"t":[..]} | {"l":[..],"k":tok} | {"d":[slots..],"k":tok}
+  with "both":true the reply is {"S":<the reply above>,"C":<the reply for exprs = [Compose(*exprs)]>}; with "flow":true
+  each of them also has "flow": `seqRun` (Model/C14X.lean) on the flow that holds every value twice.
+  The Boolean hypotheses are computed by `chainWFk` / `chainOKk` (= `chainWFb` / `chainOKb`: Props/C14X.lean).
+  attr ops also: {"vcdel":s} -> {"r":null} (`delAttr`: `del var.var_context[s]`)
+  {"op":"ctor","names":[..],"fx":bool,"nk":bool,"args":[E..]}   `Compose.__init__` on identities (`composeInitT`): the objects
+    of the arguments' var_contexts are numbered in order (`labelT` from 0), then the constructor runs
+    -> {"next":n,"args":[TVdict..],"res":TVdict|null,"steps":[{"w":[..],"next":n}|{"e":..}..],"fresh":bool}
+       `fresh`: no object of the new var_context is an object of an argument (conclusion of `composeInitT_result_fresh`)
 `nk` (optional, default false): `Compose` honours its `name` keyword (notes/C14_defect_2.patch). -/
 open Lean Lena.Drv Lena.C14 Lena.C14.Tok
 
 /-- data are raw Python values (`Model/C14.lean`: `Raw`) -/
 abbrev Data := Raw
 
-partial def toV (j : Json) : Option V :=
+/-- slots from the sparse form `[[i, v], …]` (key number, value) over an alphabet of `n` keys -/
+def sparseSlots {α : Type} (n : Nat) (f : Json → Option α) (a : Array Json) : Option (List (Option α)) :=
+  let step (acc : Option (Array (Option α))) (p : Json) : Option (Array (Option α)) :=
+    match acc, p with
+    | some arr, .arr #[i, v] =>
+      match nat? i, f v with
+      | some k, some x => if k < arr.size then some (arr.set! k (some x)) else none
+      | _, _ => none
+    | _, _ => none
+  (a.foldl step (some (Array.replicate n none))).map Array.toList
+
+/-- a dictionary is an array of its slots (`null` = key absent) or `{"D":[[i,v],…]}` (only the keys present) -/
+partial def toV (n : Nat) (j : Json) : Option V :=
   match j with
   | .arr a => (a.toList.mapM toSlot).map V.dict
   | .str s => some (.str s)
   | .obj _ =>
-    match (j.getObjVal? "l").toOption, (j.getObjVal? "t").toOption with
-    | some (.arr a), _ => (a.toList.mapM toV).map (V.seq false)
-    | _, some (.arr a) => (a.toList.mapM toV).map (V.seq true)
-    | _, _ => none
+    match (j.getObjVal? "D").toOption, (j.getObjVal? "l").toOption, (j.getObjVal? "t").toOption with
+    | some (.arr a), _, _ => (sparseSlots n (toV n) a).map V.dict
+    | _, some (.arr a), _ => (a.toList.mapM (toV n)).map (V.seq false)
+    | _, _, some (.arr a) => (a.toList.mapM (toV n)).map (V.seq true)
+    | _, _, _ => none
   | _ => (int? j).map V.int
 where toSlot (j : Json) : Option (Option V) :=
-  if j.isNull then some none else (toV j).map some
+  if j.isNull then some none else (toV n j).map some
 
-def toD (j : Json) : Option Slots :=
-  match toV j with
+def toD (n : Nat) (j : Json) : Option Slots :=
+  match toV n j with
   | some (.dict l) => some l
   | _ => none
 
@@ -62,14 +85,18 @@ partial def ofV : V → Json
   | .str s => Json.str s
   | .seq false l => Json.mkObj [("l", Json.arr (l.map ofV).toArray)]
   | .seq true l => Json.mkObj [("t", Json.arr (l.map ofV).toArray)]
-  | .dict l => Json.arr (l.map (fun | none => Json.null | some v => ofV v)).toArray
+  | .dict l => Json.mkObj [("D", Json.arr (sparse 0 l).toArray)]
+where sparse (i : Nat) : Slots → List Json
+  | [] => []
+  | none :: r => sparse (i + 1) r
+  | some v :: r => Json.arr #[ofNat i, ofV v] :: sparse (i + 1) r
 
 def ofD (l : Slots) : Json := ofV (.dict l)
 
-partial def toData (j : Json) : Option Data :=
+partial def toData (n : Nat) (j : Json) : Option Data :=
   match j with
-  | .arr a => (a.toList.mapM toData).map Raw.tuple
-  | .obj _ => (toD (getD j "ctx")).map Raw.dict
+  | .arr a => (a.toList.mapM (toData n)).map Raw.tuple
+  | .obj _ => (toD n (getD j "ctx")).map Raw.dict
   | _ => (int? j).map Raw.int
 
 partial def ofData : Data → Json
@@ -99,31 +126,31 @@ def toGetter (j : Json) : Option (GetterArg Data) :=
     | _, some i, some k, some n => some (.fn (fun x => Raw.tuple [x, Raw.dict (setSlot (emptyD n) k (some (.int i)))]))
     | _, _, _, _ => none
 
-partial def toExpr (j : Json) : Option (Expr Data) :=
+partial def toExpr (n : Nat) (j : Json) : Option (Expr Data) :=
   match str? (getD j "k") with
   | some "other" => some .other
   | some "var" =>
-    match toV (getD j "name"), toGetter (getD j "getter"), toV (getD j "type"), toD (getD j "kw") with
-    | some n, some g, some t, some kw => some (.var n g t kw)
+    match toV n (getD j "name"), toGetter (getD j "getter"), toV n (getD j "type"), toD n (getD j "kw") with
+    | some nm, some g, some t, some kw => some (.var nm g t kw)
     | _, _, _, _ => none
   | some "compose" =>
-    match (arr? (getD j "args")).bind (fun a => a.toList.mapM toExpr), toD (getD j "kw") with
+    match (arr? (getD j "args")).bind (fun a => a.toList.mapM (toExpr n)), toD n (getD j "kw") with
     | some as, some kw => some (.compose as kw)
     | _, _ => none
   | some "combine" =>
-    match (arr? (getD j "args")).bind (fun a => a.toList.mapM toExpr), toD (getD j "kw") with
+    match (arr? (getD j "args")).bind (fun a => a.toList.mapM (toExpr n)), toD n (getD j "kw") with
     | some as, some kw => some (.combine as kw)
     | _, _ => none
   | _ => none
 
 /-- a flow value: `{"d":data,"c":D}` is the tuple `(data, context)`; `{"d":data}` is the raw value `data`, which
 `get_data_context` may itself read as a pair (`rawValue`, the transcription of `_has_context`) -/
-def toValue (j : Json) : Option (Value Data) :=
-  match toData (getD j "d") with
+def toValue (n : Nat) (j : Json) : Option (Value Data) :=
+  match toData n (getD j "d") with
   | none => none
   | some d =>
     if (getD j "c").isNull then some (rawValue d)
-    else (toD (getD j "c")).map (Value.pair d)
+    else (toD n (getD j "c")).map (Value.pair d)
 
 /-! values with identities: `{"t":[..]}` a tuple, `{"l":[..],"k":tok}` a list, `{"d":[slots..],"k":tok}` a dictionary -/
 partial def toTV (j : Json) : Option TV :=
@@ -145,59 +172,83 @@ partial def ofTV : TV → Json
   | .str s => Json.str s
   | .tuple l => Json.mkObj [("t", Json.arr (l.map ofTV).toArray)]
   | .list k l => Json.mkObj [("l", Json.arr (l.map ofTV).toArray), ("k", ofNat k)]
-  | .dict k l => Json.mkObj [("d", Json.arr (l.map (fun | none => Json.null | some v => ofTV v)).toArray), ("k", ofNat k)]
+  | .dict k l => Json.mkObj [("D", Json.arr (sparse 0 l).toArray), ("k", ofNat k)]
+where sparse (i : Nat) : TSlots → List Json
+  | [] => []
+  | none :: r => sparse (i + 1) r
+  | some v :: r => Json.arr #[ofNat i, ofTV v] :: sparse (i + 1) r
 
 def toTDict (j : Json) : Option (Nat × TSlots) :=
   match toTV j with
   | some (.dict k l) => some (k, l)
   | _ => none
 
+/-- the reply of op "run" for the expressions `exprs` -/
+def runReply (names : List String) (fx nk spec flow : Bool) (exprs : List (Expr Data)) (vals : List (Value Data)) : Json :=
+  match evalArgs names fx nk Raw.tuple exprs with
+  | .error e => Json.mkObj [("e", errName e), ("phase", "init")]
+  | .ok as =>
+    -- an object that is not a Variable cannot be applied: the harness never sends one at top level
+    if !as.all Option.isSome then err "run: top-level expression is not a Variable"
+    else
+      let vars := as.filterMap id
+      let ofRes := fun (r : Except Err (Data × Slots)) =>
+        match r with
+        | .ok (d, c) => Json.mkObj [("d", ofData d), ("c", ofD c)]
+        | .error e => Json.mkObj [("e", errName e)]
+      let outs := vals.map (fun x => ofRes (seqCall names fx vars x))
+      -- `seqRun` on the flow that holds every value twice; a result that is equal to `outs[k / 2]` (the same value
+      -- applied alone) is reported as the number `k / 2`, any other result in full
+      let flowJ := (seqRun names fx vars (vals.flatMap (fun x => [x, x]))).map ofRes
+      let flowR := (flowJ.zipIdx).map (fun (r, k) =>
+        match outs[k / 2]? with
+        | some o => if o == r then ofNat (k / 2) else r
+        | none => r)
+      let base : List (String × Json) :=
+        [("vcs", ofList (fun v => ofD v.varCtx) vars), ("outs", Json.arr outs.toArray)] ++
+        (if flow then [("flow", Json.arr flowR.toArray)] else [])
+      if !spec then Json.mkObj base
+      else
+        -- the hypotheses of the theorems (`NamesOK`, `ChainWF`) for every value, as Boolean checks, and the
+        -- specification side (the definitions the theorems are stated with), executed on the same case:
+        -- `chainOKb` (syntactic hypothesis of `compose_eq_sequence_expr_partial`), `composeData`, `chainData`, `argsTypes`,
+        -- the fold of `UP` from `preDict` (right-hand side of `seqCall_result`), `leavesOKb` and `Leaf.ctx`
+        let ctxs := vars.map Variable.varCtx
+        let wfl := vals.map (fun x => chainWFk names (cvarOf names x) ctxs)
+        let cok := vals.map (fun x => Json.bool (chainOKk names (cvarOf names x) exprs))
+        let sdata := vals.map (fun x => ofData (composeData Raw.tuple exprs (getDataContext names x).1))
+        let sup := (vals.zip wfl).map (fun (x, w) =>
+          if w then ofD (ctxs.foldl (UP names) (preDict names (cvarOf names x))) else Json.null)
+        let leaves := exprs.filterMap Expr.asLeaf
+        let lok := leaves.length == exprs.length && leavesOKb names leaves
+        Json.mkObj (base ++
+          [("wf", Json.arr (wfl.map Json.bool).toArray), ("namesok", Json.bool (namesOKb names)),
+           ("cok", Json.arr cok.toArray), ("sdata", Json.arr sdata.toArray),
+           ("stypes", ofList ofV (argsTypes names exprs)), ("sup", Json.arr sup.toArray),
+           ("lok", Json.bool lok),
+           ("lctx", if lok then ofList (fun l => ofD (Leaf.ctx names l)) leaves else Json.null),
+           ("cdata", Json.arr (vals.map (fun x => ofData (chainData vars (getDataContext names x).1))).toArray)])
+
 def handle (j : Json) : Json :=
   match str? (getD j "op") with
   | some "run" =>
+    let n := ((arr? (getD j "names")).map Array.size).getD 0
     match (arr? (getD j "names")).bind (fun a => a.toList.mapM str?), bool? (getD j "fx"),
-          (arr? (getD j "exprs")).bind (fun a => a.toList.mapM toExpr),
-          (arr? (getD j "vals")).bind (fun a => a.toList.mapM toValue) with
+          (arr? (getD j "exprs")).bind (fun a => a.toList.mapM (toExpr n)),
+          (arr? (getD j "vals")).bind (fun a => a.toList.mapM (toValue n)) with
     | some names, some fx, some exprs, some vals =>
       let nk := (bool? (getD j "nk")).getD false
-      match evalArgs names fx nk Raw.tuple exprs with
-      | .error e => Json.mkObj [("e", errName e), ("phase", "init")]
-      | .ok as =>
-        -- an object that is not a Variable cannot be applied: the harness never sends one at top level
-        if !as.all Option.isSome then err "run: top-level expression is not a Variable"
-        else
-          let vars := as.filterMap id
-          let outs := vals.map (fun x =>
-            match seqCall names fx vars x with
-            | .ok (d, c) => Json.mkObj [("d", ofData d), ("c", ofD c)]
-            | .error e => Json.mkObj [("e", errName e)])
-          let base : List (String × Json) :=
-            [("vcs", ofList (fun v => ofD v.varCtx) vars), ("outs", Json.arr outs.toArray)]
-          if !((bool? (getD j "spec")).getD false) then Json.mkObj base
-          else
-            -- the hypotheses of the theorems (`NamesOK`, `ChainWF`) for every value, as Boolean checks, and the
-            -- specification side (the definitions the theorems are stated with), executed on the same case:
-            -- `chainOKb` (syntactic hypothesis of `compose_eq_sequence_expr_partial`), `composeData`, `chainData`, `argsTypes`,
-            -- the fold of `UP` from `preDict` (right-hand side of `seqCall_result`), `leavesOKb` and `Leaf.ctx`
-            let ctxs := vars.map Variable.varCtx
-            let wfl := vals.map (fun x => chainWFb names (cvarOf names x) ctxs)
-            let cok := vals.map (fun x => Json.bool (chainOKb names (cvarOf names x) exprs))
-            let sdata := vals.map (fun x => ofData (composeData Raw.tuple exprs (getDataContext names x).1))
-            let sup := (vals.zip wfl).map (fun (x, w) =>
-              if w then ofD (ctxs.foldl (UP names) (preDict names (cvarOf names x))) else Json.null)
-            let leaves := exprs.filterMap Expr.asLeaf
-            let lok := leaves.length == exprs.length && leavesOKb names leaves
-            Json.mkObj (base ++
-              [("wf", Json.arr (wfl.map Json.bool).toArray), ("namesok", Json.bool (namesOKb names)),
-               ("cok", Json.arr cok.toArray), ("sdata", Json.arr sdata.toArray),
-               ("stypes", ofList ofV (argsTypes names exprs)), ("sup", Json.arr sup.toArray),
-               ("lok", Json.bool lok),
-               ("lctx", if lok then ofList (fun l => ofD (Leaf.ctx names l)) leaves else Json.null),
-               ("cdata", Json.arr (vals.map (fun x => ofData (chainData vars (getDataContext names x).1))).toArray)])
+      let spec := (bool? (getD j "spec")).getD false
+      let flow := (bool? (getD j "flow")).getD false
+      if (bool? (getD j "both")).getD false then
+        Json.mkObj [("S", runReply names fx nk spec flow exprs vals),
+                    ("C", runReply names fx nk false flow [.compose exprs (emptyD names.length)] vals)]
+      else runReply names fx nk spec flow exprs vals
     | _, _, _, _ => err "bad run args"
   | some "attr" =>
+    let n := ((arr? (getD j "names")).map Array.size).getD 0
     match (arr? (getD j "names")).bind (fun a => a.toList.mapM str?), bool? (getD j "fx"),
-          toExpr (getD j "expr"), arr? (getD j "ops") with
+          toExpr n (getD j "expr"), arr? (getD j "ops") with
     | some names, some fx, some e, some ops =>
       let nk := (bool? (getD j "nk")).getD false
       match evalExpr names fx nk Raw.tuple e with
@@ -214,13 +265,16 @@ def handle (j : Json) : Json :=
           | _ => none
         let step (st : Variable Data × List Json) (o : Json) : Variable Data × List Json :=
           let (v, out) := st
+          match str? (getD o "vcdel") with
+          | some a => (delAttr names v a, out ++ [Json.mkObj [("r", Json.null)]])
+          | none =>
           match str? (getD o "get"), str? (getD o "set"), int? (getD o "item") with
           | some a, _, _ =>
             (v, out ++ [match getAttr names v a with
               | .ok x => Json.mkObj [("r", ofV x)]
               | .error er => Json.mkObj [("e", errName er)]])
           | _, some a, _ =>
-            match toV (getD o "v") with
+            match toV n (getD o "v") with
             | some x => (setAttr names v a x, out ++ [Json.mkObj [("r", Json.null)]])
             | none => (v, out ++ [err "bad set value"])
           | _, _, some i =>
@@ -233,7 +287,7 @@ def handle (j : Json) : Json :=
                 | .error er, _ => Json.mkObj [("e", errName er)]])
           | _, _, _ =>
             if !(getD o "call").isNull then
-              match toValue (getD o "call") with
+              match toValue n (getD o "call") with
               | some x =>
                 (v, out ++ [match call names fx v x with
                   | .ok (d, c) => Json.mkObj [("d", ofData d), ("c", ofD c)]
@@ -255,8 +309,9 @@ def handle (j : Json) : Json :=
         Json.mkObj [("r", Json.arr out.toArray)]
     | _, _, _, _ => err "bad attr args"
   | some "tok" =>
+    let n := ((arr? (getD j "names")).map Array.size).getD 0
     match (arr? (getD j "names")).bind (fun a => a.toList.mapM str?), bool? (getD j "fx"),
-          (arr? (getD j "exprs")).bind (fun a => a.toList.mapM toExpr), toValue (getD j "val"), nat? (getD j "reps") with
+          (arr? (getD j "exprs")).bind (fun a => a.toList.mapM (toExpr n)), toValue n (getD j "val"), nat? (getD j "reps") with
     | some names, some fx, some es, some x, some reps =>
       let nk := (bool? (getD j "nk")).getD false
       match evalArgs names fx nk Raw.tuple es with
@@ -317,6 +372,35 @@ def handle (j : Json) : Json :=
         Json.mkObj [("r", Json.arr steps.toArray), ("calls", Json.arr viaSeq.toArray), ("calls1", viaCalls),
                     ("next", ofNat next), ("vcs", ofList (fun w => ofTV (.dict w.1 w.2)) vars)]
     | _, _, _, _, _ => err "bad tok args"
+  | some "ctor" =>
+    let n := ((arr? (getD j "names")).map Array.size).getD 0
+    match (arr? (getD j "names")).bind (fun a => a.toList.mapM str?), bool? (getD j "fx"),
+          (arr? (getD j "args")).bind (fun a => a.toList.mapM (toExpr n)) with
+    | some names, some fx, some es =>
+      let nk := (bool? (getD j "nk")).getD false
+      match evalArgs names fx nk Raw.tuple es with
+      | .error er => Json.mkObj [("e", errName er), ("phase", "init")]
+      | .ok as =>
+        if !as.all Option.isSome then err "ctor: an argument is not a Variable" else
+        let (vars, next) : List (Nat × TSlots) × Nat :=
+          (as.filterMap id).foldl (fun (acc : List (Nat × TSlots) × Nat) v =>
+            match labelT acc.2 (.dict v.varCtx) with
+            | (.dict vt vc, n) => (acc.1 ++ [(vt, vc)], n)
+            | _ => acc) ([], 0)
+        match composeInitT names fx next vars with
+        | none => err "ctor: no arguments"
+        | some init =>
+          let res := composeInitResult names init
+          let argToks := vars.flatMap (fun w => tokens (.dict w.1 w.2))
+          let fresh := match res with
+            | some r => (tokens r).all (fun t => !argToks.contains t)
+            | none => true
+          Json.mkObj [("next", ofNat next), ("args", ofList (fun w => ofTV (.dict w.1 w.2)) vars),
+                      ("res", ofOpt ofTV res), ("fresh", Json.bool fresh),
+                      ("steps", ofList (fun (r : Except Err CallRes) => match r with
+                        | .ok r => Json.mkObj [("w", ofList ofNat r.writes), ("next", ofNat r.next)]
+                        | .error er => Json.mkObj [("e", errName er)]) init.2)]
+    | _, _, _ => err "bad ctor args"
   | _ => err "unknown op"
 
 def main : IO Unit := run handle
